@@ -1,11 +1,162 @@
+import ProductMD.Proofs.C05Images
+import ProductMD.Properties.C02
+import ProductMD.Properties.C09
 import ProductMD.Model.ComposeInfoLegacy
-import ProductMD.Model.ImagesLegacy
 import ProductMD.Model.TreeInfoLegacy
+import ProductMD.Model.RpmsLegacy
 /-!
 # C05 — older format versions are upgraded faithfully and idempotently
-(theorems are being added; see the sections below)
+
+Models: the legacy-aware readers `Model/ImagesLegacy.lean`, `Model/RpmsLegacy.lean`, `Model/ComposeInfoLegacy.lean`,
+`Model/TreeInfoLegacy.lean` on top of the C01–C04 writer/reader models.  Every branch is selected by the version gate
+regenerated from the source (`Gen.gate_*`); the gate theorems below state each gate as a comparison of PAIRS OF NATURALS
+for every version `v`, so the boundary versions (0.2/0.3/0.4, 0.9/1.0, 1.0/1.1/1.2, 2.0) are covered by the statement
+and a flipped operator or moved bound stops the file from compiling.
+
+Per format: `…_loaded_is_normal` (what ANY successful load of ANY version has built: valid parts, normal form, current
+header), `…_idempotent` (corollary with C01–C04: written as a current-version document, re-read as the same object),
+`…_faithful_…` (the documented mapping / loss of the old version).
 -/
+set_option Elab.async false
 namespace PM
+
+/-! ## images -/
+section Images
+open PM.Img PM.PyOps PM.Spec
+
+/-- the four gates an images document meets, as comparisons of pairs of naturals (for every version) -/
+theorem C05_images_gates (v : Nat × Nat) :
+    gateEval Gen.gate_images_Image_deserialize_0 (.nums v) = .ok (verLe v (1, 0))
+    ∧ gateEval Gen.gate_images_Images_deserialize_0 (.nums v) = .ok (verLe v (1, 1))
+    ∧ gateEval Gen.gate_images_Images_add_0 (.nums v) = .ok (verLe (1, 1) v)
+    ∧ gateEval Gen.gate_composeinfo_Compose_deserialize_0 (.nums v) = .ok (verLt v (0, 3)) :=
+  ⟨rfl, rfl, rfl, rfl⟩
+
+/-- the legacy-aware reader extends the C02 reader: same answer wherever that one answers -/
+theorem C05_images_extends_C02 (doc : PyVal) (s : ImgState) (h : deserialize doc = .ok s) : deserializeL doc = .ok s :=
+  deserializeL_of_deserialize doc s h
+
+/-- **loaded is normal** — whatever version the document had: the object carries the current header version, its
+compose section validates, every filed image validates with proper integer attributes, every arch key is one that
+`Images.add` accepts (in `RPM_ARCHES`, not `src`/`nosrc`: source images of ≤ 1.1 documents have been re-filed). -/
+theorem C05_images_loaded_is_normal (doc : PyVal) (s : ImgState) (h : deserializeL doc = .ok s) :
+    s.version = .str currentVersion ∧ s.compose.validate = .ok ()
+    ∧ (∀ i ∈ s.cells.all, i.validate = .ok () ∧ ProperInts i)
+    ∧ (∀ t ∈ triples s.cells, Gen.RPM_ARCHES.contains t.2.1 = true ∧ refusedArches.contains t.2.1 = false) := by
+  obtain ⟨hv, hc, hg⟩ := deserializeL_good doc s h
+  refine ⟨hv, hc, ?_, ?_⟩
+  · intro i hi
+    rw [all_eq_entries] at hi
+    obtain ⟨e, he, rfl⟩ := List.mem_map.mp hi
+    exact (hg e he).1
+  · intro t ht
+    obtain ⟨e, he, rfl⟩ := List.mem_map.mp ht
+    exact (hg e he).2
+
+/-- from 1.1 on (the generated gate of the identity scan) a loaded manifest is collision-free -/
+theorem C05_images_uniq_from_1_1 (doc : PyVal) (s : ImgState) (ver : PyVal) (hver : headerDeserialize doc = .ok ver)
+    (hv : Enforces ver) (h : deserializeL doc = .ok s) : Uniq s.cells := by
+  refine deserializeL_inv doc s (fun s => Uniq s.cells) (fun _ _ e h => e ▸ h) ?_ ?_ h
+  · intro ver' hver'
+    rw [hver] at hver'
+    injection hver' with hver'
+    subst hver'
+    refine ⟨fun s v a id img s' hs hu hadd => ?_⟩
+    have := C09_step s v a id img (hs ▸ hv) hu
+    rw [hadd] at this
+    exact this
+  · intro i hi; simp [Cells.all] at hi
+
+/--
+**idempotent (partial: hypothesis `Uniq`).**  A manifest loaded from a document of any version is written as a
+current-version document which the *current* reader (no legacy branch involved: conversion happens exactly once) reads
+back as the same multiset of (variant, arch, 15-attribute record) filings, the same compose section up to the documented
+normalisation, and the current header version; and the object read back satisfies all of this again.
+`Uniq` holds automatically from 1.1 on (`C05_images_uniq_from_1_1`); for ≤ 1.0 documents it is a real restriction:
+`C05_images_F11_witness`.
+-/
+theorem C05_images_idempotent_partial (doc : PyVal) (s : ImgState) (h : deserializeL doc = .ok s) (hu : Uniq s.cells) :
+    ∃ doc' s', (serialize s).2 = .ok doc' ∧ deserialize doc' = .ok s' ∧ deserializeL doc' = .ok s'
+      ∧ (triples s'.cells).Perm (triples s.cells) ∧ s'.compose = composeNorm s.compose
+      ∧ s'.version = .str currentVersion ∧ Uniq s'.cells ∧ composeNorm s'.compose = s'.compose := by
+  obtain ⟨_, hc, hi, ha⟩ := C05_images_loaded_is_normal doc s h
+  obtain ⟨doc', s', h1, h2, h3, h4, h5⟩ := C02_readback_partial s hc hi ha hu
+  obtain ⟨_, _, _, hu', hn⟩ := C02_cycle_closed s s' hc hi ha hu h3 h4
+  exact ⟨doc', s', h1, h2, deserializeL_of_deserialize doc' s' h2, h3, h4, h5, hu', hn⟩
+
+/-- **faithful, documented loss of ≤ 1.0** (generated gate, every version `v ≤ (1, 0)`): an image dictionary without
+`subvariant` is read exactly as the current reader reads the same dictionary with `"subvariant": ""` — all other
+fourteen attributes by the same rules, the subvariant `""`. -/
+theorem C05_images_faithful_subvariant (ver : PyVal) (v : Nat × Nat) (hvt : versionTuple ver = .ok (.nums v))
+    (hold : verLe v (1, 0) = true) (kvs : List (Str × PyVal)) (hno : kvs.find? (·.1 == L "subvariant") = none) :
+    Image.deserialize ver (.dict kvs)
+      = Image.deserialize (.str currentVersion) (.dict (kvs ++ [(L "subvariant", .str [])])) := by
+  have hs : item (.dict (kvs ++ [(L "subvariant", .str [])])) (L "subvariant") = .ok (.str []) := by
+    simp only [item, subscript]
+    rw [List.find?_append, hno]
+    rfl
+  have hg : getD (.dict kvs) (L "subvariant") (.str []) = .ok (.str []) := by
+    simp only [getD, hno]
+  unfold Image.deserialize
+  simp only [item_snoc_ne kvs (L "subvariant", PyVal.str []) (L "path") (by decide),
+    item_snoc_ne kvs (L "subvariant", PyVal.str []) (L "mtime") (by decide),
+    item_snoc_ne kvs (L "subvariant", PyVal.str []) (L "size") (by decide),
+    item_snoc_ne kvs (L "subvariant", PyVal.str []) (L "volume_id") (by decide),
+    item_snoc_ne kvs (L "subvariant", PyVal.str []) (L "type") (by decide),
+    getD_snoc_ne kvs (L "subvariant", PyVal.str []) (L "format") _ (by decide),
+    item_snoc_ne kvs (L "subvariant", PyVal.str []) (L "arch") (by decide),
+    item_snoc_ne kvs (L "subvariant", PyVal.str []) (L "disc_number") (by decide),
+    item_snoc_ne kvs (L "subvariant", PyVal.str []) (L "disc_count") (by decide),
+    item_snoc_ne kvs (L "subvariant", PyVal.str []) (L "checksums") (by decide),
+    item_snoc_ne kvs (L "subvariant", PyVal.str []) (L "implant_md5") (by decide),
+    item_snoc_ne kvs (L "subvariant", PyVal.str []) (L "bootable") (by decide),
+    getD_snoc_ne kvs (L "subvariant", PyVal.str []) (L "unified") _ (by decide),
+    getD_snoc_ne kvs (L "subvariant", PyVal.str []) (L "additional_variants") _ (by decide),
+    hvt, cur_vt, ok_bind, (C05_images_gates v).1, hold, cur_not_old_image, hs, hg, ↓reduceIte, Bool.false_eq_true]
+
+/-- **faithful, 1.1 and later** (every version `v` with `¬ v ≤ (1, 0)`): the image reader does not depend on the version —
+nothing is defaulted, a document without `subvariant` is refused as by the current reader -/
+theorem C05_images_faithful_from_1_1 (ver : PyVal) (v : Nat × Nat) (hvt : versionTuple ver = .ok (.nums v))
+    (hnew : verLe v (1, 0) = false) (d : PyVal) :
+    Image.deserialize ver d = Image.deserialize (.str currentVersion) d := by
+  unfold Image.deserialize
+  simp only [hvt, cur_vt, ok_bind, (C05_images_gates v).1, hnew, cur_not_old_image]
+
+/-- **F11 through the legacy reader**: a 1.0 document (no subvariants) with two images of equal type/format/arch/disc
+number and different checksums is accepted, written as a current-version document, and that document is refused -/
+def wF11doc : PyVal :=
+  let img (p c : String) : PyVal := .dict [(L "path", .str (L p)), (L "mtime", .int 1), (L "size", .int 1), (L "volume_id", .none),
+    (L "type", .str (L "dvd")), (L "format", .str (L "iso")), (L "arch", .str (L "x86_64")), (L "disc_number", .int 1),
+    (L "disc_count", .int 1), (L "checksums", .dict [(L "md5", .str (L c))]), (L "implant_md5", .none), (L "bootable", .bool false)]
+  .dict [(L "header", .dict [(L "version", .str (L "1.0"))]),
+    (L "payload", .dict [(L "compose", .dict [(L "id", .str (L "F-22-20150522.0")), (L "type", .str (L "production")),
+        (L "date", .str (L "20150522")), (L "respin", .int 0)]),
+      (L "images", .dict [(L "Server", .dict [(L "x86_64", .list [img "a.iso" "a", img "b.iso" "b"])])])])]
+
+theorem C05_images_F11_witness :
+    errIs (match deserializeL wF11doc with
+      | .ok s => (match (serialize s).2 with | .ok d => deserializeL d | .error _ => .ok default)
+      | .error _ => .ok default) .valueError = true := by decide +kernel
+
+/-- non-vacuity: a 1.0 document with a `src` cell and no subvariants goes through the whole upgrade cycle in the model,
+the second document equals the first -/
+def wOldDoc : PyVal :=
+  let img (p a : String) (n : Int) : PyVal := .dict [(L "path", .str (L p)), (L "mtime", .int 1), (L "size", .int 1), (L "volume_id", .none),
+    (L "type", .str (L "dvd")), (L "format", .str (L "iso")), (L "arch", .str (L a)), (L "disc_number", .int n),
+    (L "disc_count", .int 2), (L "checksums", .dict [(L "md5", .str (L p))]), (L "implant_md5", .none), (L "bootable", .bool false)]
+  .dict [(L "header", .dict [(L "version", .str (L "0.2"))]),
+    (L "payload", .dict [(L "compose", .dict [(L "id", .str (L "F-22-20150522.n.3")), (L "type", .str (L "x"))]),
+      (L "images", .dict [(L "Server", .dict [(L "x86_64", .list [img "a.iso" "x86_64" 1]), (L "i386", .list [img "b.iso" "i386" 1]),
+        (L "src", .list [img "s.iso" "src" 2])])])])]
+
+example : (match upgradeCycle wOldDoc with
+    | .ok (s, d1, s2, d2) => s.cells.all.length == 4 && PyVal.beq (PyVal.canon d1) (PyVal.canon d2)
+        && pyEq s.compose.date (.str (L "20150522")) && pyEq s.compose.type (.str (L "nightly")) && pyEq s.compose.respin (.int 3)
+    | .error _ => false) = true := by decide +kernel
+
+end Images
+
+/-! ## composeinfo (gates; more below) -/
 
 /-- the composeinfo gates at the boundary versions, as the source states them now -/
 theorem C05_ci_gates_at_boundaries :
